@@ -8,7 +8,7 @@
    the remaining operations are tied by the correspondence run (three-way with std::vec::Vec) only. *)
 From Coq Require Import ZArith List Bool Lia.
 From MV Require Import Ast Eval Scalar Machine Model Policy.
-From MV.Proofs Require Import Arith Logic Prim View OpsLocal Guards Grow CapHistory Drops DrainIt Core Refine Clone Append Extend.
+From MV.Proofs Require Import Arith Logic Prim View OpsLocal Guards Grow CapHistory Drops DrainIt Core Refine Clone Append Extend CloneSlice.
 Import ListNotations.
 Open Scope Z_scope.
 
@@ -224,3 +224,23 @@ Theorem C01_extend_any_iterator :
                          (forall e, e < next_elem s -> ledger s' e = ledger s e)).
 Proof. exact extend_abs. Qed.
 Print Assumptions C01_extend_any_iterator.
+
+(* extend_from_slice(&[T]) -- the route of From<&[T]> and of IntoIter::clone (which clones
+   `as_slice()` into a new vector): the vector is its old contents followed by one NEW element per
+   source element, in order, with the source's payload (T::clone ran once per element); the sources
+   and every element that existed before are untouched; a panic (capacity overflow) leaves the old
+   contents plus the clones made so far *)
+Theorem C01_extend_from_slice_clones_each_element_once :
+  forall cfg ncap, cfg_ok cfg -> policy_ok ncap -> needs_drop cfg = true ->
+  forall s w l src,
+  vabs cfg s w l -> cloneable s src ->
+  post (extend_from_slice cfg ncap w src s)
+    (fun _ s' =>
+       vabs cfg s' w (l ++ zseq (next_elem s) (List.length src)) /\
+       next_elem s' = next_elem s + Z.of_nat (List.length src) /\
+       (forall e, e < next_elem s -> ledger s' e = ledger s e /\ payload s' e = payload s e) /\
+       (forall j, (j < List.length src)%nat -> payload s' (next_elem s + Z.of_nat j) = payload s (nth j src 0)))
+    (fun s' => exists k, (k <= List.length src)%nat /\ vabs cfg s' w (l ++ zseq (next_elem s) k) /\
+                         (forall e, e < next_elem s -> ledger s' e = ledger s e)).
+Proof. exact extend_from_slice_abs. Qed.
+Print Assumptions C01_extend_from_slice_clones_each_element_once.
